@@ -48,6 +48,8 @@ type Model struct {
 	LastValue   string
 	Calls       map[string]int
 	evLang      string // language carried by the context of the running request
+	// FreshEngine: every request is served by a newly created engine (persisted operation)
+	FreshEngine bool
 
 	// render state of the current segment
 	mapped    []string
@@ -106,6 +108,8 @@ type Pred struct {
 	RenderLangUnknown bool
 	// after the request
 	Moved bool
+	// PostStateUnknown: the session state after this request is not determined by the model
+	PostStateUnknown bool
 }
 
 var reInput = regexp.MustCompile(`^\+?[a-zA-Z0-9].*$`)
@@ -304,6 +308,11 @@ func (m *Model) Request(input string) *Pred {
 	}
 	m.evLang = m.Lang
 	m.catching = false
+	if m.FreshEngine {
+		// an engine created for this request has a new renderer: nothing mapped, no menu, no error prefix
+		m.resetRender()
+		m.errPrefix, m.errKnown = "", true
+	}
 	m.Flags[fINMATCH] = false
 	halted := false
 	var failed *stepErr
@@ -512,6 +521,13 @@ func (m *Model) Request(input string) *Pred {
 	}
 	// Flush
 	m.flush(p)
+	if exiting && p.ExitValue == "" && (p.FlushErr || p.FlushDontCare) {
+		// the final page cannot be rendered and there is no exit value: Flush returns the error and the
+		// engine does not unwind the session. If it is unknown whether the render fails, the state is unknown.
+		p.Graceful = true
+		p.PostStateUnknown = p.FlushDontCare
+		return p
+	}
 	if exiting {
 		p.Graceful = true
 		if p.FlushErr && p.ExitValue != "" {
